@@ -8,7 +8,6 @@ Record case27 := { c_rs : list rspec; c_cs : list cspec; c_script : list ev; c_i
 Definition tag_name (t : tag) : string :=
   match t with
   | TTimeout => "timed_out_call_keeps_slot"
-  | TBadFdCo => "coroutine_bad_fd_aborts"
   end.
 
 Fixpoint dedup (l : list tag) : list tag :=
